@@ -299,7 +299,7 @@ def run_file_timers(params, known):
     '''Keepalive and idle time as the daemon gets them - from the configuration file over the
     defaults: keepalive_time absent / 0 / 5 / 30, idle_time absent / 0 / 7 / null (null = twice the
     keepalive time, as the loader documents), against a peer announcing keepalive 0 or 3 that then
-    stays silent for 100 s.  The loaded values are what the file says; an endpoint without idle time
+    stays silent for 100 s; with and without a terminate() call refused before the session exists.  The loaded values are what the file says; an endpoint without idle time
     never starts an idle termination; with an idle time and no keepalive traffic it starts it then.'''
     import json
     violations = []
@@ -317,7 +317,7 @@ def run_file_timers(params, known):
     for role in ('passive', 'active'):
         for own_ka in (ABSENT, 0, 5, 30):
             for own_idle in (ABSENT, 0, 7, None):
-                for peer_ka in (0, 3):
+                for (peer_ka, early_term) in ((0, False), (3, False), (0, True), (3, True)):
                     count += 1
                     content = {}
                     if own_ka is not ABSENT:
@@ -325,8 +325,14 @@ def run_file_timers(params, known):
                     if own_idle is not ABSENT:
                         content['idle_time'] = own_idle
                     text = json.dumps({'tcpcl': content})
-                    case = dict(role=role, file=text, peer_keepalive=peer_ka)
+                    case = dict(role=role, file=text, peer_keepalive=peer_ka, terminate_refused_before_the_session=early_term)
                     w = PeerWorld(dict(role=role, keepalive=0, idle=0, seg_mru=64, tx_init=64, config_text=text))
+                    if early_term:
+                        # the user asks for termination while there is no session yet: refused, and without consequence
+                        res = w.bus_call(w.proc, RPATH, 'terminate', 0, iface=RIFACE)
+                        w.quiesce()
+                        if res[0] == 'ok':
+                            viol('terminate-accepted-without-a-session', repr(res), case)
                     eff_ka = 0 if own_ka is ABSENT else own_ka
                     eff_idle = 0 if own_idle is ABSENT else (2 * eff_ka if own_idle is None else own_idle)
                     if (w.cfg.keepalive_time, w.cfg.idle_time) != (eff_ka, eff_idle):
